@@ -20,7 +20,10 @@ def run(tier, seed):
     jobs = [(vh, "panic-histories", ["-seed", seed, "-panics", "-n", n, "-len", ln, "-spec=false"], False),
             (vhd, "panic-histories-debugpools", ["-seed", seed, "-panics", "-n", n, "-len", ln, "-spec=false"], True),
             (vh, "panic-histories-unpoisoned", ["-seed", seed + 1, "-panics", "-n", n, "-len", ln, "-spec=false", "-poison=false"], False),
-            (vh, "panic-histories-with-spec", ["-seed", seed + 5, "-panics", "-n", 6 if quick else 60, "-len", ln], False)]
+            (vh, "panic-histories-with-spec", ["-seed", seed + 5, "-panics", "-n", 12 if quick else 80, "-len", ln], False),
+            # the same kind of histories WITHOUT scribbling: a handler that reads a redeemed validator's own fields (to decide
+            # whether to give it back once more) reads them as they really are
+            (vh, "panic-histories-with-spec-unpoisoned", ["-seed", seed + 6, "-panics", "-n", 12 if quick else 80, "-len", ln, "-poison=false"], False)]
     common.parallel_jobs(check, lambda j: poolsfam.histories(check, j[0], j[1], j[2], full=j[3]), jobs, jobs=len(jobs))
     if check.coverage.get("panics_injected", 0) == 0:
         raise common.Inconclusive("no panic was injected: the workloads make no format check")
